@@ -1,5 +1,6 @@
 import Ufo2ftModel.Drv.GeomJ
 import Ufo2ftModel.Spec.C01
+import Ufo2ftModel.Spec.Good
 namespace Ufo2ft.Drv.C01
 open Lean Ufo2ft Ufo2ft.Drv Ufo2ft.C01
 
@@ -62,7 +63,8 @@ def font (req : Json) : R Reply := do
         | _ => throw "glyph entry"
       let names := og.filterMap (fun o => match o.getArr? with | .ok a => (a[0]?.bind (fun j => j.getStr?.toOption)) | _ => none)
       let missing := gs.names.filter (fun n => !names.contains n && !skip.contains n)
-      return { model, holds := bad.isEmpty && missing.isEmpty, info := strsJ (bad ++ missing) }
+      return { model, holds := bad.isEmpty && missing.isEmpty, info := strsJ (bad ++ missing),
+               hyp := Json.bool (goodCert gs (depthCert gs) && skip.isEmpty) }
 
 def handle (op : String) (req : Json) : R Reply :=
   match op with
